@@ -232,6 +232,54 @@ def check_identity_b(ctx, cases, pb, Pq, Fq, method):
                            "x0": ratm(x0)})
 
 
+def norm_inf(Mx):
+    return max(sum(abs(v) for v in row) for row in Mx)
+
+
+def check_domain(ctx, cases, pb, Pq, Fq, method):
+    """explicit-rate theorems (`stationary_cost_rate`, `no_better_linear_rule_rate`) on the code's (P, F): is the
+    closed loop inside the domain beta*||A-BF||inf^2 < 1 (exact), and if so do the exact finite-T costs obey the bound"""
+    rng = ctx.rng
+    n, k, b = pb.n, pb.k, pb.beta
+    Kc = msub(pb.A, mm(pb.B, Fq))
+    kap = norm_inf(Kc)
+    g = maxabs(Pq)
+    ctx.count("inf:domain-total")
+    cases.append(Case("C07 domain A=%s B=%s F=%s P=%s beta=%s" % (ratm(pb.A), ratm(pb.B), ratm(Fq), ratm(Pq), rat(b)),
+                      "kappa=%s pmax=%s bk2=%s" % (rat(kap), rat(g), rat(b * kap * kap)), tag="domain"))
+    if not b * kap * kap < 1:
+        return
+    ctx.count("inf:domain-inside")
+    x0 = [[F(rng.randint(-4, 4), 2)] for _ in range(n)]
+    m = maxabs(x0)
+    qP = lambda x: mm(tr(x), mm(Pq, x))[0][0]
+    C0 = F(n * n) * g * m * m
+    # a second rule inside the domain (if one is found): G = F + small Delta
+    G = None
+    for _ in range(4):
+        Gc = madd(Fq, [[F(rng.randint(-1, 1), 8) for _ in range(n)] for _ in range(k)])
+        kg = norm_inf(msub(pb.A, mm(pb.B, Gc)))
+        if b * kg * kg < 1 and Gc != Fq:
+            G, kapG = Gc, kg
+            break
+    for T in (1, 2, 4, 8):
+        cF, xsF = rule_run(pb, Fq, T, x0)
+        slack = F(ENV_FIX) * max(F(1), abs(cF), abs(qP(x0))) * T      # P, F are a fixed point only up to rounding
+        bound = C0 * (b * kap * kap) ** T
+        ctx.count("inf:rate-checks")
+        if abs(cF - qP(x0)) > bound + slack:
+            ctx.spec_fail("stationary_cost_rate", "%s: |cost_F(%d) - x0'Px0| = %.6e exceeds n^2 g m^2 (beta kappa^2)^T = %.6e" % (
+                method, T, float(abs(cF - qP(x0))), float(bound)),
+                {"problem": pb.wire(), "method": method, "F": ratm(Fq), "P": ratm(Pq), "T": T, "x0": ratm(x0)})
+        if G is not None:
+            cG, _ = rule_run(pb, G, T, x0)
+            ctx.count("inf:comparison-checks")
+            if cG < cF - C0 * ((b * kap * kap) ** T + (b * kapG * kapG) ** T) - slack:
+                ctx.spec_fail("no_better_linear_rule", "%s: cost_G(%d) = %.9g is below cost_F - tail bounds (cost_F = %.9g)" % (
+                    method, T, float(cG), float(cF)),
+                    {"problem": pb.wire(), "method": method, "F": ratm(Fq), "P": ratm(Pq), "G": ratm(G), "T": T, "x0": ratm(x0)})
+
+
 def qp_value_matrix(pb, Rf, T):
     """P_0 of the T-period deterministic programme by the definition: for x0 in a basis, minimise the total
     discounted cost over the stacked controls (exact normal equations).  Returns None if the Hessian is singular."""
@@ -691,6 +739,8 @@ def run(ctx):
     n_inf = ctx.n(12, 200)
     for it in range(n_inf):
         Q, R, A, B, C, N, beta, cross = gen_problem(ctx, need_beta_lt1=True)
+        if ctx.rng.random() < 0.4:
+            A = scal(F(1, 4), A)       # small dynamics: more closed loops inside the domain beta*||A-BF||inf^2 < 1
         n, k = len(R), len(Q)
         res = {}
         for method in ("doubling", "qz"):
@@ -747,6 +797,7 @@ def run(ctx):
                 ctx.spec_fail("stationary_cost", "%s: x'Px+d is not the cost generated by u=-Fx: %s" % (method, why),
                               {"problem": pb.wire(), "method": method, "got": upd_str(Fm, P, d)})
             check_identity_b(ctx, cases, pb, Pq, Fq, method)
+            check_domain(ctx, cases, pb, Pq, Fq, method)
             # no perturbed linear rule is cheaper
             for _p in range(ctx.n(2, 4)):
                 D = [[F(ctx.rng.randint(-2, 2), 8) for _ in range(n)] for _ in range(k)]
